@@ -102,7 +102,10 @@ def main():
             if m2:
                 props = ['C' + m2.group(1)]
         if os.path.exists(meta) and patch.endswith('.diff'):
-            props = [json.load(open(meta))['property']]
+            mj = json.load(open(meta))
+            # its own property first, then whatever else was seen to catch it
+            props = [mj['property']] + [p for p in mj.get('caught_by', [])
+                                        if p != mj['property']]
         if only and not any(o in patch for o in only):
             continue
         jobs.append((patch, props))
